@@ -104,7 +104,8 @@ impl<'a> SdesChunk<'a> {
                 ret.items.push(item);
             }
 
-            while offset < data.len() && data[offset] == 0 {
+            // the zero fill ends at the next 32-bit boundary: further zeros belong to the next chunk
+            while offset % 4 != 0 && offset < data.len() && data[offset] == 0 {
                 offset += 1;
             }
         }
